@@ -44,25 +44,25 @@ const maxHashes = 6_000_000
 
 // Recorder accumulates per-process statistics of one unit (one Test function).
 type Recorder struct {
-	mu        sync.Mutex
-	Property  string
-	Unit      string
-	Rule      string
+	mu       sync.Mutex
+	Property string
+	Unit     string
+	Rule     string
 	// ReplayUnit names the unit whose Replay test can re-execute the cases of this recorder
 	// (differs from Unit for Regress units); written into in-flight and fail files.
 	ReplayUnit string
-	outDir    string
-	shard     int
-	evals     int
-	nontriv   int
-	hashes    map[uint64]struct{}
-	hashOver  int
-	classes   map[string]int
-	samples   []json.RawMessage
-	failures  int
-	lastFail  string
-	notes     []string
-	exhaustiv bool
+	outDir     string
+	shard      int
+	evals      int
+	nontriv    int
+	hashes     map[uint64]struct{}
+	hashOver   int
+	classes    map[string]int
+	samples    []json.RawMessage
+	failures   int
+	lastFail   string
+	notes      []string
+	exhaustiv  bool
 }
 
 // New creates a recorder. unit is the name of the Test function.
